@@ -410,6 +410,13 @@ class Engine(
 
     def append_binary(self, operation: BinaryOperation, lhs: Relation, rhs: Relation) -> Select:
         # Docstring inherited.
+        if lhs.engine != self or rhs.engine != self:
+            # Check this before conforming (and judging the row order of) a
+            # tree that belongs to another engine.
+            raise EngineError(
+                f"Engine {self} cannot apply {operation} to relations with engines "
+                f"{lhs.engine} and {rhs.engine}."
+            )
         conformed_lhs = self.conform(lhs)
         conformed_rhs = self.conform(rhs)
         return self._append_binary_to_select(operation, conformed_lhs, conformed_rhs)
